@@ -42,6 +42,7 @@ fn canary_of(v: &Canon) -> Option<&'static str> {
     match v {
         Canon::Int(i) if (1000..2000).contains(i) => Some("T1"),
         Canon::Int(i) if (2000..3000).contains(i) => Some("T2"),
+        Canon::Int(i) if (4000..5000).contains(i) => Some("S2.T1"),
         _ => None,
     }
 }
@@ -49,7 +50,13 @@ fn canary_of(v: &Canon) -> Option<&'static str> {
 fn gen_stmt(rng: &mut Rng) -> Stmt {
     let k = 1100 + rng.range(0, 3);
     let mk = |sql: String, shape: &'static str, needs: Vec<(&'static str, Pr)>, reads: Vec<&'static str>, writes: Option<&'static str>| Stmt { sql, shape, needs, reads, writes };
-    match rng.below(25) {
+    match rng.below(29) {
+        // a table of the same name in another schema: nothing is ever granted on it, so whatever
+        // the role holds on PUBLIC.T1 must not open it
+        25 => mk("SELECT id, a FROM s2.t1".into(), "other-schema-scan", vec![("S2.T1", Pr::Select)], vec!["S2.T1"], None),
+        26 => mk("SELECT x.id, y.id FROM t1 AS x INNER JOIN s2.t1 AS y ON x.id < y.id".into(), "other-schema-join", vec![("T1", Pr::Select), ("S2.T1", Pr::Select)], vec!["T1", "S2.T1"], None),
+        27 => mk("SELECT t1.id FROM t1 WHERE t1.id + 3000 IN (SELECT y.id FROM s2.t1 AS y)".into(), "other-schema-in-subquery", vec![("T1", Pr::Select), ("S2.T1", Pr::Select)], vec!["T1", "S2.T1"], None),
+        28 => mk("INSERT INTO t3 SELECT * FROM s2.t1".into(), "other-schema-insert-select", vec![("T3", Pr::Insert), ("S2.T1", Pr::Select)], vec!["S2.T1"], Some("T3")),
         0 => mk("SELECT id, a FROM t1".into(), "scan", vec![("T1", Pr::Select)], vec!["T1"], None),
         1 => mk(format!("SELECT id, a FROM t1 WHERE a = {}", k), "index-scan-eq", vec![("T1", Pr::Select)], vec!["T1"], None),
         2 => mk(format!("SELECT id FROM t1 WHERE a >= {} ORDER BY a", k), "index-scan-range-order", vec![("T1", Pr::Select)], vec!["T1"], None),
@@ -95,6 +102,14 @@ pub fn run(ctx: &mut Ctx) {
             s.must(&format!("INSERT INTO t2 VALUES ({}, {})", 2001 + i, 2100 + i));
             s.must(&format!("INSERT INTO t3 VALUES ({}, {})", 3001 + i, 3100 + i));
         }
+        s.must("CREATE SCHEMA s2");
+        s.must("CREATE TABLE s2.t1 (id INTEGER, a INTEGER)");
+        // (INSERT takes no qualified table name: S2.T1 is filled while S2 is the current schema)
+        s.db.catalog.set_current_schema("S2").unwrap();
+        for i in 0..3 {
+            s.must(&format!("INSERT INTO t1 VALUES ({}, {})", 4001 + i, 4100 + i));
+        }
+        s.db.catalog.set_current_schema("public").unwrap();
         let indexed = rng.chance(2, 3);
         if indexed {
             s.must("CREATE INDEX ix_t1_a ON t1 (a)");
